@@ -53,6 +53,16 @@ def first_letter_guarded(ctx, g):
         if not ok:
             bad.append(show(a[1], 1)[:20])
     ctx.floor("first-letter reads in relators_by_start_gen", n, 1)
+    # ... and ONLY the empty relators are skipped: a one-letter relator `a` does constrain the group (guard evaluated for lengths 0, 1, 2, 5)
+    ents = list(b.calls("BTreeMap::<K, V, A>::entry")) or list(b.calls("::entry"))
+    ctx.floor("relators filed under their first letter", len(ents), 1)
+    for bi, t in ents:
+        tab = reach_table_by_length(b, bi, g)
+        okt = tab == {0: False, 1: True, 2: True, 5: True}
+        ctx.ob("T3-every-relator-filed", b.name, "entry(w[0]) <- rel.len() > 0", "ok" if okt else "violation",
+               "every relator of length >= 1 is filed, exactly the empty ones are skipped" if okt else
+               "relators are not filed exactly when non-empty (reached for lengths %s): relators of the dropped lengths no longer constrain the stabiliser's presentation" % (
+                   tab if tab is None else [L for L, v in tab.items() if v]), b.span_of(bi))
     ctx.ob("T5-first-letter-guarded", b.name, "w[0] <- w.len() > 0", "ok" if not bad else "violation",
            "the first letter is read only of non-empty words" if not bad else
            "w[%s] is read of every rotation of every relator: stabilizer() panics on a presentation with a trivial relator such as a a^-1 (its only rotation is the empty word)" % ", ".join(bad))
